@@ -1,13 +1,23 @@
 /-
 C03 — Stream reassembly is independent of segmentation and buffer geometry.
-Property theorems only. Layer 1: the ring buffer (model after the dependency's source) refines a
-byte queue for EVERY geometry — capacity, read/write offsets, wrap position — so a decoder that
-only uses these operations cannot depend on the geometry.
+Property theorems only (helpers: OAP/Proofs/Ring.lean, OAP/Proofs/Stream.lean).
+
+Layer 1: the ring buffer (model after the dependency's source) refines a byte queue for EVERY
+geometry — capacity, read/write offsets, wrap position.
+Layer 2: one call of the streaming decoder over the ring computes exactly the abstract decoder
+`unpackAbs` over `rb.abs` (`unpackRing_eq_abs`): the quantification over `rb` covers every wrap
+position of every multi-byte field, every capacity, every offset.
+Layer 3: the abstract decoder's read loop is independent of how the stream is cut into chunks
+(`chunking_independent`), and so is the loop over the real ring (`ring_chunking_independent`).
 -/
 import OAP.Model.Ring
 import OAP.Model.Stream
+import OAP.Proofs.Ring
+import OAP.Proofs.Stream
 namespace OAP.C03
-open OAP
+open OAP OAP.Frame
+
+/-! ### Layer 1: the ring buffer is a byte queue -/
 
 /-- `Length()` is the number of queued bytes -/
 theorem ring_length (rb : Ring) (h : rb.WF) : rb.length = rb.abs.length := Ring.length_abs rb h
@@ -33,8 +43,215 @@ theorem ring_newWithData (d : Bytes) : (Ring.newWithData d).WF ∧ (Ring.newWith
   refine ⟨?_, by simp [Ring.newWithData, Ring.abs]⟩
   constructor <;> simp [Ring.newWithData] <;> omega
 
+/-- `Read(p)` with `len(p) = n > 0` on a ring holding at least one byte returns the first `n`
+queued bytes (fewer if fewer are queued) and drops them. The precondition `0 < rb.length` is the
+precise one: it implies the ring is not flagged empty and has positive capacity. -/
+theorem read_spec (rb : Ring) (h : rb.WF) (n : Nat) (hn : 0 < n) (hl : 0 < rb.length) :
+    ∃ rb', rb.read n = .ok (rb.abs.take n, rb') ∧ rb'.WF ∧ rb'.abs = rb.abs.drop n :=
+  Ring.read_spec rb h n hn hl
+
+/-- `Read` of an empty slice is a no-op -/
+theorem read_zero (rb : Ring) : rb.read 0 = .ok ([], rb) := Ring.read_zero rb
+
+/-- `Read` on a ring flagged empty is `ErrIsEmpty` (an error, not a panic) -/
+theorem read_empty (rb : Ring) (n : Nat) (hn : 0 < n) (he : rb.isEmpty = true) :
+    ∃ e, rb.read n = .err e := ⟨_, Ring.read_empty rb n hn he⟩
+
+/-- the only way `Read` panics: a zero-capacity ring that is flagged non-empty (`NewWithData(nil)`) -/
+example : (Ring.newWithData []).WF ∧ (Ring.newWithData []).read 1 = .panic "integer divide by zero" :=
+  ⟨(ring_newWithData []).1, rfl⟩
+
+/-- `PeekAll()`: the two slices concatenated are the whole queue -/
+theorem peekAll_abs (rb : Ring) (h : rb.WF) : (rb.peekAll).1 ++ (rb.peekAll).2 = rb.abs :=
+  Ring.peekAll_abs rb h
+
+/-- `PeekUint8()`: the first queued byte -/
+theorem peekUint8_spec (rb : Ring) (h : rb.WF) (a : UInt8) (t : Bytes) (habs : rb.abs = a :: t) :
+    rb.peekUint8 = .ok a := Ring.peekUint8_spec rb h a t habs
+
+/-- `PeekUint16()`: big-endian over the first two queued bytes, wherever the wrap falls -/
+theorem peekUint16_spec (rb : Ring) (h : rb.WF) (a b : UInt8) (t : Bytes) (habs : rb.abs = a :: b :: t) :
+    rb.peekUint16 = .ok (rd16 a b) := Ring.peekUint16_spec rb h a b t habs
+
+theorem peekUint32_spec (rb : Ring) (h : rb.WF) (a b c d : UInt8) (t : Bytes)
+    (habs : rb.abs = a :: b :: c :: d :: t) : rb.peekUint32 = .ok (rd32 a b c d) :=
+  Ring.peekUint32_spec rb h a b c d t habs
+
+theorem peekUint64_spec (rb : Ring) (h : rb.WF) (a b c d e f g i : UInt8) (t : Bytes)
+    (habs : rb.abs = a :: b :: c :: d :: e :: f :: g :: i :: t) :
+    rb.peekUint64 = .ok (rd64 a b c d e f g i) := Ring.peekUint64_spec rb h a b c d e f g i t habs
+
+/-- the `PeekUintN` methods are total: on a short ring they return 0, never panic -/
+theorem peekUint_total (rb : Ring) (h : rb.WF) :
+    rb.peekUint8 = .ok (Q.u8 rb.abs) ∧ rb.peekUint16 = .ok (Q.u16 rb.abs) ∧
+    rb.peekUint32 = .ok (Q.u32 rb.abs) ∧ rb.peekUint64 = .ok (Q.u64 rb.abs) :=
+  ⟨Ring.peekUint8_abs rb h, Ring.peekUint16_abs rb h, Ring.peekUint32_abs rb h, Ring.peekUint64_abs rb h⟩
+
 /-! non-vacuity: a wrapped ring (r = 3, w = 1 in a buffer of 4) -/
 example : (⟨[5, 0, 0, 4], 4, 3, 1, false⟩ : Ring).abs = [4, 5] := by decide
 example : (⟨[5, 0, 0, 4], 4, 3, 1, false⟩ : Ring).peek 2 = ([4], [5]) := by decide
+example : (⟨[5, 0, 0, 4], 4, 3, 1, false⟩ : Ring).WF := by constructor <;> decide
+example : (⟨[5, 0, 0, 4], 4, 3, 1, false⟩ : Ring).peekUint16 = .ok 0x0405 := by decide
+example : ((⟨[5, 0, 0, 4], 4, 3, 1, false⟩ : Ring).read 2).toOption.map (·.1) = some [4, 5] := by decide
+
+/-! ### Layer 2: one decoder call over the ring = one call over the queue, for every geometry -/
+
+/-- GEOMETRY INDEPENDENCE. For every well-formed ring — any capacity, any read/write offsets, any
+wrap position, hence every way a multi-byte field or the body can straddle the end of the buffer —
+and for ANY parked header (not only reachable ones), `protocolVx.Unpack` over the ring returns the
+result of the abstract decoder over the queued bytes, parks the same header, and leaves a
+well-formed ring holding exactly the abstract decoder's remaining queue. -/
+theorem unpackRing_eq_abs (v : Ver) (gz : GzOracle) (codec : UInt8) (pend : Option Header) (rb : Ring)
+    (wf : rb.WF) :
+    let o := unpackRing v gz codec pend rb
+    let a := unpackAbs v gz codec pend rb.abs
+    o.res = a.1 ∧ o.pend = a.2.1 ∧ o.rb.WF ∧ o.rb.abs = a.2.2 :=
+  Frame.unpackRing_eq_abs v gz codec pend rb wf
+
+/-- corollary: two rings holding the same bytes are indistinguishable to the decoder -/
+theorem unpackRing_geometry (v : Ver) (gz : GzOracle) (codec : UInt8) (pend : Option Header)
+    (rb₁ rb₂ : Ring) (wf₁ : rb₁.WF) (wf₂ : rb₂.WF) (h : rb₁.abs = rb₂.abs) :
+    (unpackRing v gz codec pend rb₁).res = (unpackRing v gz codec pend rb₂).res ∧
+    (unpackRing v gz codec pend rb₁).pend = (unpackRing v gz codec pend rb₂).pend ∧
+    (unpackRing v gz codec pend rb₁).rb.abs = (unpackRing v gz codec pend rb₂).rb.abs := by
+  obtain ⟨a1, a2, _, a4⟩ := Frame.unpackRing_eq_abs v gz codec pend rb₁ wf₁
+  obtain ⟨b1, b2, _, b4⟩ := Frame.unpackRing_eq_abs v gz codec pend rb₂ wf₂
+  rw [a1, a2, a4, b1, b2, b4, h]; exact ⟨rfl, rfl, rfl⟩
+
+/-- the parked-header invariant (`PendOK v pend`: the header is one the decoder itself parks after
+consuming some prefix of a frame) holds initially and is preserved by every call -/
+theorem pend_ok_none (v : Ver) : PendOK v none := pendOK_none v
+
+theorem pend_ok_preserved (v : Ver) (gz : GzOracle) (codec : UInt8) (pend : Option Header) (rb : Ring)
+    (wf : rb.WF) (hp : PendOK v pend) : PendOK v (unpackRing v gz codec pend rb).pend := by
+  rw [(Frame.unpackRing_eq_abs v gz codec pend rb wf).2.1]
+  exact Frame.pend_ok_preserved v gz codec pend rb.abs hp
+
+/-! non-vacuity: a v1 push frame `03 07 000002 09 08` in a ring of 8 with r = 5, w = 4: the 3-byte
+body length straddles the end of the buffer (1 byte before the wrap, 2 after) -/
+private def gz0 : GzOracle := ⟨fun _ => .err "none", fun _ => none⟩
+private def wrapped : Ring := ⟨[0, 2, 9, 8, 0, 3, 7, 0], 8, 5, 4, false⟩
+example : wrapped.WF := by constructor <;> decide
+example : wrapped.abs = [3, 7, 0, 0, 2, 9, 8] := by decide
+example : ((wrapped.retrieve 2).peek 3) = ([0], [0, 2]) := by decide
+example : (unpackRing .v1 gz0 0 none wrapped).res = .pkt { type := .push, cmd := 7, body := [9, 8] } := by
+  decide
+example : (unpackRing .v1 gz0 0 none wrapped).rb.abs = [] := by decide
+example : unpackAbs .v1 gz0 0 none [3, 7, 0, 0, 2, 9, 8] =
+    (.pkt { type := .push, cmd := 7, body := [9, 8] }, none, []) := by decide
+
+/-! ### Layer 3: chunking independence -/
+
+/-- KEY LAW: a call depends only on the undelivered bytes. `Parked v pend u` says that `pend` is the
+header parked after consuming the bytes `u` of the current frame; then resuming with queue `q`
+is decoding `u ++ q` from scratch. -/
+theorem unpack_unread (v : Ver) (gz : GzOracle) (codec : UInt8) (pend : Option Header) (u q : Bytes)
+    (hp : Parked v pend u) :
+    unpackAbs v gz codec pend q = unpackAbs v gz codec none (u ++ q) :=
+  Frame.unpack_unread v gz codec pend u q hp
+
+/-- a packet consumes at least a whole header of the stream -/
+theorem unpack_pkt_lt (v : Ver) (gz : GzOracle) (codec : UInt8) (u : Bytes) (k : Packet)
+    (p' : Option Header) (r : Bytes) (h : unpackAbs v gz codec none u = (.pkt k, p', r)) :
+    r.length + pushLen v ≤ u.length := Frame.unpack_pkt_lt v gz codec u k p' r h
+
+/-- appending bytes never changes a decision already made (a packet or an error) -/
+theorem unpack_append_pkt (v : Ver) (gz : GzOracle) (codec : UInt8) (u c : Bytes) (s : SRes)
+    (p' : Option Header) (r : Bytes) (h : unpackAbs v gz codec none u = (s, p', r)) (hs : s ≠ .more) :
+    unpackAbs v gz codec none (u ++ c) = (s, p', r ++ c) := Frame.unpack_append v gz codec u c s p' r h hs
+
+/-- a "need more data" result leaves the undelivered stream unchanged -/
+theorem unpack_more_unread (v : Ver) (gz : GzOracle) (codec : UInt8) (u : Bytes) (p' : Option Header)
+    (q' : Bytes) (h : unpackAbs v gz codec none u = (.more, p', q')) :
+    ∃ u', Parked v p' u' ∧ u' ++ q' = u := Frame.unpack_more_unread v gz codec u p' q' h
+
+/-- the same laws with the undelivered stream as a FUNCTION of the state: `unread v pend q` is the
+parked header re-encoded by the codec's own `Header.Pack` (nothing / byte 0 / the whole header),
+followed by the queue. `PendOK v pend` ↔ `Parked v pend (hdrBytes v pend)`. -/
+theorem unpack_unread_fn (v : Ver) (gz : GzOracle) (codec : UInt8) (pend : Option Header) (q : Bytes)
+    (hp : PendOK v pend) :
+    unpackAbs v gz codec pend q = unpackAbs v gz codec none (unread v pend q) :=
+  unpack_unread' v gz codec pend q hp
+
+theorem unpack_more_unread_fn (v : Ver) (gz : GzOracle) (codec : UInt8) (pend : Option Header) (q : Bytes)
+    (hp : PendOK v pend) (hm : (unpackAbs v gz codec pend q).1 = .more) :
+    unread v (unpackAbs v gz codec pend q).2.1 (unpackAbs v gz codec pend q).2.2 = unread v pend q :=
+  unpack_more_unread' v gz codec pend q hp hm
+
+/-- by-product: `Header.Pack` inverts the streaming header decoder on every complete header -/
+theorem pack_inverts_stream_header (v : Ver) (b : UInt8) (w : Bytes) (hk : isUnknown (usType v b) = false)
+    (hw : w.length = hdrLen v (usType v b) - 1) :
+    Header.pack v (restAbs v (parse0 v {} b) w).1 = .ok (b :: w) := pack_restAbs v b w hk hw
+
+/-- the read loop from a parked state is the read loop over the re-assembled stream -/
+theorem drain_spec (v : Ver) (gz : GzOracle) (codec : UInt8) (pend : Option Header) (u q : Bytes)
+    (hp : Parked v pend u) : drain v gz codec pend q = run v gz codec (u ++ q) :=
+  Frame.drain_spec v gz codec pend u q hp
+
+/-- resumability of the read loop -/
+theorem drain_append (v : Ver) (gz : GzOracle) (codec : UInt8) (c u : Bytes) (ks : List Packet)
+    (p : Option Header) (r : Bytes) (h : run v gz codec u = (ks, (.more, p, r))) :
+    run v gz codec (u ++ c) = (ks ++ (drain v gz codec p (r ++ c)).1, (drain v gz codec p (r ++ c)).2) :=
+  Frame.drain_append v gz codec c u ks p r h
+
+/-- what feeding chunk by chunk delivers is what the one-shot loop over the whole stream delivers -/
+theorem feed_spec (v : Ver) (gz : GzOracle) (codec : UInt8) (chunks : List Bytes) :
+    (feed v gz codec chunks).obs =
+      ((run v gz codec chunks.flatten).1,
+       if (run v gz codec chunks.flatten).2.1 = .more then none else some (run v gz codec chunks.flatten).2.1) :=
+  tracks_obs v gz codec _ _ (feed_tracks v gz codec chunks)
+
+/-- CHUNKING INDEPENDENCE (abstract decoder): the delivered packets and the error verdict after
+feeding the chunks one by one (running the read loop after each, stopping at the first error)
+are those of feeding the whole stream at once -/
+theorem chunking_independent (v : Ver) (gz : GzOracle) (codec : UInt8) (chunks : List Bytes) :
+    (feed v gz codec chunks).obs = (feed v gz codec [chunks.flatten]).obs :=
+  Frame.chunking_independent v gz codec chunks
+
+/-- the connection over the real ring buffer (`Write` each chunk, loop `Unpack`) observes what the
+queue connection observes, from ANY well-formed empty ring -/
+theorem ring_feed_eq (v : Ver) (gz : GzOracle) (codec : UInt8) (rb0 : Ring) (wf : rb0.WF)
+    (he : rb0.abs = []) (chunks : List Bytes) :
+    (rfeed v gz codec rb0 chunks).obs = (feed v gz codec chunks).obs :=
+  rfeed_obs v gz codec rb0 wf he chunks
+
+/-- CHUNKING AND GEOMETRY INDEPENDENCE (ring decoder): any two well-formed empty rings — different
+capacities, different offsets — fed the same stream cut in any way deliver the same packets and
+the same verdict -/
+theorem ring_chunking_independent (v : Ver) (gz : GzOracle) (codec : UInt8) (rb₁ rb₂ : Ring)
+    (wf₁ : rb₁.WF) (wf₂ : rb₂.WF) (he₁ : rb₁.abs = []) (he₂ : rb₂.abs = []) (chunks : List Bytes) :
+    (rfeed v gz codec rb₁ chunks).obs = (rfeed v gz codec rb₂ [chunks.flatten]).obs := by
+  rw [rfeed_obs v gz codec rb₁ wf₁ he₁, rfeed_obs v gz codec rb₂ wf₂ he₂]
+  exact Frame.chunking_independent v gz codec chunks
+
+/-- instance: `New(cap₁)` against `New(cap₂)` whose pointers were first moved to an arbitrary
+offset by writing `pre` and reading it back (`Read` leaves r = w at that offset) -/
+theorem ring_chunking_independent_new (v : Ver) (gz : GzOracle) (codec : UInt8) (cap₁ cap₂ : Nat)
+    (pre d : Bytes) (rb₂ : Ring) (hrd : ((Ring.new cap₂).write pre).read pre.length = .ok (d, rb₂))
+    (chunks : List Bytes) :
+    (rfeed v gz codec (Ring.new cap₁) chunks).obs = (rfeed v gz codec rb₂ [chunks.flatten]).obs := by
+  have w := Ring.write_spec (Ring.new cap₂) (ring_new cap₂).1 pre
+  obtain ⟨rb', h1, h2, h3⟩ := Ring.read_abs _ w.1 pre.length (by
+    rw [Ring.length_abs _ w.1, w.2, (ring_new cap₂).2]; simp)
+  rw [h1] at hrd
+  simp only [Res.ok.injEq, Prod.mk.injEq] at hrd
+  obtain ⟨_, rfl⟩ := hrd
+  exact ring_chunking_independent v gz codec _ _ (ring_new cap₁).1 h2 (ring_new cap₁).2
+    (by rw [h3, w.2, (ring_new cap₂).2]; simp) chunks
+
+/-! non-vacuity: the frame above cut as 3 + 3 + 1 bytes is delivered once, by the last chunk -/
+example : (feed .v1 gz0 0 [[3, 7, 0], [0, 2, 9], [8]]).obs =
+    ([{ type := .push, cmd := 7, body := [9, 8] }], none) := by
+  rw [feed_spec]
+  have h1 : unpackAbs .v1 gz0 0 none [3, 7, 0, 0, 2, 9, 8] =
+      (.pkt { type := .push, cmd := 7, body := [9, 8] }, none, []) := by decide
+  have : run .v1 gz0 0 [3, 7, 0, 0, 2, 9, 8] =
+      ([{ type := .push, cmd := 7, body := [9, 8] }], (.more, some {}, [])) := by
+    rw [run_eq_drain, drain, h1]; simp only
+    rw [run_eq_drain, drain, unpackAbs_nil]
+  simp [this]
+/-- the ring with r = 6 after the move wraps inside the frame -/
+example : (((Ring.new 8).write [1, 2, 3, 4, 5, 6]).read 6).toOption.map (fun x => (x.2.r, x.2.w, x.2.isEmpty)) =
+    some (6, 6, true) := by decide
 
 end OAP.C03
